@@ -223,7 +223,7 @@ Theorem tokens_cover d o s ts q : o_space o = None -> tok_seq d o s ts q ->
 Proof.
   intros Ho. induction 1 as [|ts p t Hts IH Hws (Hb & _ & _ & Hsf & _)]; [reflexivity|].
   rewrite map_app, concat_app, IH. cbn. rewrite app_nil_r, Hsf.
-  destruct Hws as [Hws|[Hsp _]]; [rewrite Hws; apply firstn_slice; destruct Hb; rewrite <- Hws; apply Nat.lt_le_incl; assumption|].
+  destruct Hws as [[_ Hws]|[Hsp _]]; [rewrite Hws; apply firstn_slice; destruct Hb; rewrite <- Hws; apply Nat.lt_le_incl; assumption|].
   unfold is_space in Hsp. rewrite Ho in Hsp. discriminate.
 Qed.
 
@@ -243,7 +243,7 @@ Theorem tokens_ordered d o s ts q : tok_seq d o s ts q ->
 Proof.
   induction 1 as [|ts p t Hts [IH1 IH2] Hws (Hb & _)].
   - split; constructor.
-  - assert (Hp : (p <= t_cs t)%nat) by (destruct Hws as [->|[_ ->]]; lia).
+  - assert (Hp : (p <= t_cs t)%nat) by (destruct Hws as [[_ ->]|[_ ->]]; lia).
     split.
     + apply Forall_app. split; [|repeat constructor; lia].
       eapply Forall_impl; [|exact IH1]. cbn. intros a Ha. lia.
